@@ -67,14 +67,17 @@ def unusual_faults(ctx):
     d = tempfile.mkdtemp(prefix="ujc11u_")
     try:
         for pk in ("str", "pathlib"):
-            for previous in (False, True):
+            for previous in (False, True, "symlink"):       # "symlink": the path is a symbolic link to an ordinary file holding the previous value
                 for kind in ("staged_write body", "staged_write_path body", "json items", "pickle reduce", "rename refused"):
                     name = os.path.join(d, "t_%s_%s_%s" % (pk, previous, kind.replace(" ", "_")))
                     path = pathlib.Path(name) if pk == "pathlib" else name
                     if previous:
-                        with open(name, "wb") as f:
+                        real = name + ".real" if previous == "symlink" else name
+                        with open(real, "wb") as f:
                             f.write(cc.OLD)
-                        os.utime(name, ns=(cc.OLD_NS, cc.OLD_NS))
+                        os.utime(real, ns=(cc.OLD_NS, cc.OLD_NS))
+                        if previous == "symlink":
+                            os.symlink(real, name)
                     exc = Problems("no rows")
                     exc_box[0] = exc
                     raised = None
